@@ -767,6 +767,38 @@ Lemma smt_ctr_guard_refuted :
   = Panic "nil dereference: *State.ClaimsTreeRoot".
 Proof. reflexivity. Qed.
 
+(* validateTreeState takes an ABSENT claims root as the zero hash, so a state that is
+   CONSISTENT with its roots (s_match = true) can still lack the claims root: the nil
+   checks are needed wherever validateIssuerState is placed *)
+Definition consistent_state_without_ctr : statef := mkstatef HGood HNil_ HGood HGood true true.
+
+Example consistent_state_without_ctr_validates :
+  validate_issuer_state consistent_state_without_ctr = Ok tt.
+Proof. reflexivity. Qed.
+
+Lemma smt_ctr_guard_refuted_consistent :
+  verify_smt (g_without 4)
+    (mksmtf (mkissuerf true consistent_state_without_ctr good_doc true (Some true)) true (Some good_mtp))
+  = Panic "nil dereference: *State.ClaimsTreeRoot".
+Proof. reflexivity. Qed.
+
+Definition good_status : statusf :=
+  mkstatusf (RSObj true true) true true
+            (RAns (mkstatusj true None) good_state (mkmtpf false None (LRoot true))).
+Definition bjj_without_ctr : bjjf :=
+  mkbjjf true (SigOk true) true (Some good_mtp) true
+         (mkissuerf true consistent_state_without_ctr good_doc true (Some true)) good_status.
+
+Lemma bjj_ctr_guard_refuted_consistent :
+  verify_bjj (g_without 4) bjj_without_ctr = Panic "nil dereference: *State.ClaimsTreeRoot".
+Proof. reflexivity. Qed.
+
+Example bjj_ctr_guarded :
+  verify_bjj all_guards bjj_without_ctr = Err "claims-root-unset"
+  /\ verify_bjj all_guards
+       (mkbjjf true (SigOk true) true (Some good_mtp) true good_issuer good_status) = Ok tt.
+Proof. split; reflexivity. Qed.
+
 Lemma published_guard_refuted :
   verify_smt (g_without 5)
     (mksmtf (mkissuerf true good_state (DDoc (mkdiddocj true [] []) (Some None)) true (Some true)) true (Some good_mtp))
